@@ -89,6 +89,13 @@ Proof.
   - apply bscan_bound in H. lia.
 Qed.
 
+Lemma bscan_bound_progress opn cls dg s i tc sq dq prev i' tc' :
+  bscan opn cls dg s i tc sq dq prev = (i', tc') ->
+  (i <= i' <= i + length s)%nat /\ (s <> [] -> (i < i')%nat).
+Proof.
+  intro H. split; [eapply bscan_bound; eassumption|]. intro N. eapply bscan_progress; eassumption.
+Qed.
+
 Lemma fn_head_bound s : forall i i' b,
   fn_head i s = (i', b) -> (i <= i' <= i + length s)%nat /\ (b = true -> (i < i')%nat).
 Proof.
@@ -210,7 +217,7 @@ Proof.
       * left; assumption.
       * right; left; assumption.
       * right; right. exists t', tok', rest'. split; [assumption|]. split; [right; assumption|assumption].
-    + rewrite (truthy_some_nonempty tok N). right; right. exists t, tok, rest.
+    + destruct tok as [|c0 r0]; [congruence|]. cbn [truthy tok_str]. right; right. exists t, (c0 :: r0), rest.
       split; [reflexivity|]. split; [left; reflexivity|]. split; [assumption|]. split; assumption.
 Qed.
 
